@@ -1,5 +1,6 @@
 import LitedramVerif.Spec.Dram
 import LitedramVerif.Spec.BankMon
+import LitedramVerif.Spec.TimingMon
 import Drv.Util
 open DrvUtil
 
@@ -59,5 +60,51 @@ def drvDramMon (st : Option DramMonSt) (xs : List Nat) : Option DramMonSt × Str
           (some { s with err := some msg }, msg)
       | .error e =>
         let msg := s!"VIOL {s.mon.cycle} {e}"
+        (some { s with err := some msg }, msg)
+  | _, _ => (st, "bad-line")
+
+/-! ### the monitor of `C03.controller_timing_ok` (Spec/TimingMon.lean) on a DFI trace, in controller cycles -/
+structure TimingMonSt where
+  nphases : Nat
+  nranks : Nat
+  nbanks : Nat
+  q : TimingMon.Req
+  m : TimingMon.St
+  cycle : Nat := 0
+  err : Option String := none
+
+/-- cfg: nphases nranks nbanks tRCD tRP tRAS tRC tRRD tFAW tCCD tWTP tWTR tRFC tZQCS   (all in controller cycles, 0 = none)
+per cycle: nphases × (csN bank address casN rasN weN rddataEn wrdataEn); prints "ok" or "VIOL <cycle> <what>" (sticky) -/
+def drvTimingMon (st : Option TimingMonSt) (xs : List Nat) : Option TimingMonSt × String :=
+  match st, xs with
+  | none, [nphases, nranks, nbanks, tRCD, tRP, tRAS, tRC, tRRD, tFAW, tCCD, tWTP, tWTR, tRFC, tZQCS] =>
+    let q : TimingMon.Req := { tRCD, tRP, tRAS, tRC, tRRD, tFAW, tCCD, tWTP, tWTR, tRFC, tZQCS, nbanks := nranks * nbanks }
+    (some { nphases, nranks, nbanks, q, m := TimingMon.St.init q }, "cfg")
+  | some s, xs =>
+    match s.err with
+    | some e => (some s, e)
+    | none =>
+      let arr := xs.toArray
+      let dc : Dram.Cfg := { nphases := s.nphases, nranks := s.nranks, nbanks := s.nbanks, rdphase := 0, wrphase := 0,
+                             req := { tRCD := 0, tRP := 0, tRAS := 0, tRC := 0, tRRD := 0, tFAW := 0, tCCD := 0, tWTP := 0, tWTR := 0, tRFC := 0, tZQCS := 0 } }
+      let evs : List TimingMon.Ev := (List.range s.nphases).flatMap fun i =>
+        let b := 8 * i
+        let p : Dram.Phase := { csN := arr.getD b 0, bank := arr.getD (b+1) 0, address := arr.getD (b+2) 0, casN := n2b (arr.getD (b+3) 1), rasN := n2b (arr.getD (b+4) 1), weN := n2b (arr.getD (b+5) 1), rddataEn := false, wrdataEn := false }
+        let gbs := (Dram.selected dc p).map fun r => r * s.nbanks + p.bank
+        match Dram.decode p with
+        | .act _ => gbs.map .act
+        | .rd _ ap => gbs.map fun g => .rd g ap
+        | .wr _ ap => gbs.map fun g => .wr g ap
+        | .pre => gbs.map .pre
+        | .prea => [.prea]
+        | .ref => [.ref]
+        | .zqc => [.zqc]
+        | _ => []
+      match TimingMon.step s.q s.m evs with
+      | some m' => (some { s with m := m', cycle := s.cycle + 1 }, "ok")
+      | none =>
+        let bad := evs.filter fun e => !TimingMon.allowed s.q s.m e
+        let bs : String := toString (repr bad)
+        let msg := "VIOL " ++ toString s.cycle ++ " controller-cycle timing monitor (Spec/TimingMon, the monitor of C03.controller_timing_ok) rejects " ++ bs ++ " (empty list: more than four ACT in a tFAW window)"
         (some { s with err := some msg }, msg)
   | _, _ => (st, "bad-line")
